@@ -123,6 +123,11 @@ def run_property(prop, tier, replay=None, extra_props=()):
     wd = core.scratch('pyb-')
     try:
         thorough = tier == 'thorough'
+        if replay and json.load(open(replay))['case'].get('multiscope'):
+            from . import mscope_common
+            mscope_common.run_into(ck, tier, wd, replay_case=json.load(open(replay))['case'])
+            ck.rule = 'replay of one multi-scope program (PyScope.tla)'
+            return ck.finish()
         if replay:
             data = json.load(open(replay))
             case = data['case']
@@ -185,6 +190,14 @@ def run_property(prop, tier, replay=None, extra_props=()):
                    'distinct by abstract tree' % ('canonical C03 fragment for %d%%' % int(100 * (0.7 if prop == 'C03' else 0.5 if prop == 'C02' else 0.3)),
                                                   'every program' if thorough else 'every third program'))
         ck.exhaustive = False
+        if prop == 'C01' and not replay:
+            # beyond one body: nested functions, lambdas, classes, comprehensions, closures, global / nonlocal, calls
+            from . import mscope_common
+            mscope_common.run_into(ck, tier, wd)
+            ck.rule += ('; PLUS seeded random MULTI-SCOPE programs (nested def with every parameter kind, defaults / decorators / annotations, '
+                        'lambda, class with bases / keywords, comprehensions, closures, global, nonlocal, calls, if / for) with all executions '
+                        'explored by TLC on PyScope.tla (frames, cells, LOAD_NAME fallback of class bodies), validated two-way against CPython '
+                        'on every program')
         for c in cases[:2]:
             ck.sample({'source': c['source'], 'flavour': c['flavour'], 'c02': c['c02'], 'c03': c['c03'],
                        'reads': [[o['id'], o['vis'], o['undef'], o['alts']] for o in c['rd']][:12],
